@@ -35,6 +35,7 @@ def run(rep, tier):
     rhumb_wrap(rep, F)
     same_measure(rep, F)
     metric_laws(rep, F, tier)
+    legacy_twins(rep, F, "R16.8", ("Rhumb", "Haversine", "Geodesic"))
 
 def bearings(rep, F):
     rep.rule("R16.1", "Bearing::bearing = (x + 360) % 360 in every metric space")
@@ -414,3 +415,98 @@ def metric_laws(rep, F, tier="quick"):
             n_ok += 1
             rep.ok("R16.7", "laws:%s[132 pairs]" % space, sample={k: "%.3g" % v for k, v in worst.items()})
     rep.floor("R16.7", "metric spaces evaluated", n_ok, 2)
+
+
+def legacy_twins(rep, F, rule, spaces):
+    """The legacy per-type traits (RhumbDistance, HaversineDestination, GeodesicLength, EuclideanDistance, ...) are twins of the metric-space
+    API: every method is one call of the corresponding metric-space method on the matching space with its own arguments in order (the fill
+    variants collect points_along_line).  The two legacy bearings that keep their own formula are compared numerically with the space's
+    bearing modulo 360 on witness pairs."""
+    import math
+    from ..symex import bare
+    rep.rule(rule, "legacy twins (%s + Distance / Bearing / Destination / Intermediate / Length): each method is exactly one call of the metric space's method on the matching space with the arguments in order; legacy bearings with their own formula agree with the space's bearing modulo 360 on witnesses" % "|".join(spaces))
+    want_m = {"Distance": ("distance",), "Bearing": ("bearing",), "Destination": ("destination",), "Intermediate": ("point_at_ratio_between", "points_along_line"), "Length": ("length",)}
+    n = 0
+    own = []
+    for im in F.impls:
+        tr = im.get("trait") or ""
+        m = re.search(r"::(%s)(Distance|Bearing|Destination|Intermediate|Length)$" % "|".join(spaces), tr)
+        if not m or im.get("crate") != "geo":
+            continue
+        space, kind = m.group(1), m.group(2)
+        for it in im["items"]:
+            fn = F.impl_fn(im, it["name"])
+            if fn is None:
+                continue
+            key = "%s%s::%s:%s" % (space, kind, it["name"], short(im["self_ty"])[:24]) + ("" if not im.get("trait_args") or len(im["trait_args"]) < 3 else "/" + short(str(im["trait_args"][-1]))[:20])
+            try:
+                ps = [p for p in Symex(F, inline_crates=()).run(fn) if p.kind != "cut"]
+            except Unanalysable as e:
+                rep.bad(rule, "twin:%s:unanalysable" % key, str(e), where=fn.loc())
+                continue
+            rets = [p for p in ps if p.kind == "ret"]
+            if len(ps) != 1 or len(rets) != 1 or rets[0].pc:
+                rep.bad(rule, "twin:%s" % key, "%s is not a single unconditional call (%d paths)" % (key, len(ps)), where=fn.loc())
+                continue
+            r = rets[0].ret
+            b = bare(r)
+            t = r
+            if t[0] == "call" and t[1].rsplit("::", 1)[-1] == "collect" and len(t[2]) == 1:
+                t = t[2][0]
+            ok = False
+            if t[0] == "call" and t[1].rsplit("::", 1)[-1] in want_m[kind] and len(t[2]) == fn.arg_count + 1:
+                sp = show(t[2][0])
+                args_ok = all(re.fullmatch(r"(Point::Point\()?[&*]*(into\()?[&*]*a%d\)*" % (i + 1), bare(a).replace(" ", "")) for i, a in enumerate(t[2][1:]))
+                space_ok = space in sp or (space == "Geodesic" and "GeodesicMeasure" in sp)
+                ok = args_ok and space_ok
+            if ok:
+                n += 1
+                rep.ok(rule, "twin:%s" % key, sample=b[:80])
+            elif kind == "Bearing" and "atan2" in b or "inverse(" in b:
+                own.append((space, fn, key))
+            else:
+                rep.bad(rule, "twin:%s" % key, "%s = %s: not the %s space's %s on (self, args...) in order" % (key, b[:120], space, "/".join(want_m[kind])), where=fn.loc())
+    # legacy bearings with their own formula: numerically equal to the space's bearing modulo 360 (Haversine; Geodesic is external)
+    from ..numeval import NumEval
+    from ..evalterm import NoModel
+    LM = "geo::algorithm::line_measures::"
+    pts = [(0.0, 0.0), (10.0, 20.0), (-75.0, 40.0), (170.0, 10.0), (-170.0, 20.0), (120.0, -35.0), (30.0, 60.0)]
+    for space, fn, key in own:
+        if space != "Haversine":
+            n += 1
+            rep.ok(rule, "twin:%s[own formula over geographiclib: hand-off checked by R16.3]" % key)
+            continue
+        try:
+            leg = [p for p in Symex(F, inline_crates=("geo", "geo_types"), max_depth=12).run(fn) if p.kind != "cut"]
+            mfn = None
+            for im in F.impls_of(LM + "bearing::Bearing"):
+                if im["self_ty"].endswith("HaversineMeasure"):
+                    mfn = F.impl_fn(im, "bearing")
+            met = [p for p in Symex(F, inline_crates=("geo", "geo_types"), max_depth=12).run(mfn) if p.kind != "cut"]
+            bad = None
+            for a in pts:
+                for b_ in pts:
+                    if a == b_:
+                        continue
+                    A, B = {"0": {"x": a[0], "y": a[1]}}, {"0": {"x": b_[0], "y": b_[1]}}
+                    e1 = NumEval(F, {("arg", 1): A, ("arg", 2): B})
+                    h1 = e1.select_path(leg)
+                    e2 = NumEval(F, {("arg", 1): {"radius": 6371008.8}, ("arg", 2): A, ("arg", 3): B})
+                    h2 = e2.select_path(met)
+                    if len(h1) != 1 or len(h2) != 1:
+                        raise NoModel("row selection")
+                    v1, v2 = float(e1.ev(h1[0].ret)), float(e2.ev(h2[0].ret))
+                    d = abs(((v1 % 360.0) + 360.0) % 360.0 - v2)
+                    if min(d, 360.0 - d) > 1e-9:
+                        bad = "haversine_bearing(%s, %s) = %.9f, Haversine.bearing = %.9f" % (a, b_, v1, v2)
+                        break
+                if bad:
+                    break
+            if bad:
+                rep.bad(rule, "twin:%s" % key, bad, where=fn.loc())
+            else:
+                n += 1
+                rep.ok(rule, "twin:%s[numeric, %d pairs]" % (key, len(pts) * (len(pts) - 1)))
+        except (NoModel, Unanalysable, TypeError, KeyError, ValueError) as e:
+            rep.bad(rule, "twin:%s:non-abstractable" % key, str(e), where=fn.loc())
+    rep.floor(rule, "legacy twin methods", n, 20 if "Euclidean" not in spaces else 60)
